@@ -349,6 +349,38 @@ Proof.
   - (* None, keys *) rewrite E3. apply tv_keys_all.
 Qed.
 
+Lemma gen_get_tag_values_NoDup g ks m : gwf g -> NoDup (map fst (gen_get_tag_values g ks m)).
+Proof.
+  intros [Hw _]. pose proof Hw as [Hn Hi].
+  assert (Hinner : forall k inner, In (k, inner) (_tags g) -> d_get [] k (_tags g) = inner) by (intros k inner H; apply (d_get_In pyeq_str_eq _ [] k inner Hn H)).
+  unfold gen_get_tag_values.
+  cbv zeta.
+  assert (E1 : forall rst, fold_left (fun rst '(tag_key, tag_values) => fold_left (fun rst tag_value => d_set tag_key (set_add tag_value (d_get [] tag_key rst)) rst) (map fst tag_values) (d_set tag_key [] rst)) (_tags g) rst = fold_left step1 (_tags g) rst).
+  { intros rst. apply fold_left_ext. intros a [k inner]. reflexivity. }
+  assert (E3 : forall rst, fold_left (fun rst '(tag_key, tag_values) => if d_has tag_key rst then fold_left (fun rst tag_value => d_set tag_key (set_add tag_value (d_get [] tag_key rst)) rst) (map fst tag_values) rst else rst) (_tags g) rst = fold_left step3 (_tags g) rst).
+  { intros rst. apply fold_left_ext. intros a [k inner]. reflexivity. }
+  assert (E2 : forall ms rst, fold_left (fun rst '(tag_key, tag_values) => fold_left (fun rst '(tag_value, items) =>
+       if nonempty_list (set_inter ms items) then (if negb (d_has tag_key rst) then d_set tag_key [tag_value] rst else d_set tag_key (set_add tag_value (d_get [] tag_key rst)) rst) else rst)
+       (d_get [] tag_key (_tags g)) rst) (_tags g) rst = fold_left (step2 (fun items => overlaps ms items)) (_tags g) rst).
+  { intros ms rst. apply fold_left_ext_in. intros a [k inner] Hin. rewrite (Hinner k inner Hin). unfold step2. cbn [fst snd]. apply fold_left_ext. intros a' [v items]. cbn [fst snd].
+    rewrite nonempty_inter. destruct (overlaps ms items); [apply dadd_alt | reflexivity]. }
+  assert (E4 : forall ms rst, fold_left (fun rst '(tag_key, tag_values) => fold_left (fun rst '(tag_value, items) =>
+       if d_has tag_key rst && nonempty_list (set_inter ms items) then d_set tag_key (set_add tag_value (d_get [] tag_key rst)) rst else rst)
+       (d_get [] tag_key (_tags g)) rst) (_tags g) rst = fold_left (step4 (fun items => overlaps ms items)) (_tags g) rst).
+  { intros ms rst. apply fold_left_ext_in. intros a [k inner] Hin. rewrite (Hinner k inner Hin). unfold step4. cbn [fst snd]. apply fold_left_ext. intros a' [v items]. cbn [fst snd].
+    rewrite nonempty_inter. reflexivity. }
+  destruct m as [[|c0 s]|]; destruct ks as [|k0 ks']; cbn [opt_truthy truthy negb nonempty_list andb opt_str].
+  - rewrite E1. apply (proj1 (DS_O1 _ [] _ _ Hn (fun k _ H => H) DS_nil)).
+  - rewrite E3. apply (proj1 (DS_O3 _ _ _ _ (DS_keys0 _))).
+  - match goal with |- context [if ?t then _ else _] => destruct t end; [| constructor].
+    rewrite E2. apply (proj1 (DS_O2 _ _ [] _ _ DS_nil)).
+  - match goal with |- context [if ?t then _ else _] => destruct t end.
+    + rewrite E4. apply (proj1 (DS_O4 _ _ _ _ _ (DS_keys0 _))).
+    + apply (proj1 (DS_keys0 _)).
+  - rewrite E1. apply (proj1 (DS_O1 _ [] _ _ Hn (fun k _ H => H) DS_nil)).
+  - rewrite E3. apply (proj1 (DS_O3 _ _ _ _ (DS_keys0 _))).
+Qed.
+
 Theorem source_tag_values_exact g pts ks m : gwf g -> tne (_tags g) -> Rep (abs g) pts -> wf_points pts ->
   canon_tv (gen_get_tag_values g ks m) = scan_tag_values ks (in_meas m pts).
 Proof. intros Hg Ht HR Hw. rewrite (gen_get_tag_values_eq g ks m Hg Ht). apply ix_get_tag_values_spec; assumption. Qed.
